@@ -6,6 +6,7 @@ import (
 	"fmt"
 	"io"
 	"math/rand"
+	"runtime"
 	"strings"
 
 	"github.com/gorilla/websocket"
@@ -35,10 +36,49 @@ func deflateFinal(p []byte, level int) []byte {
 	return append(buf.Bytes(), 0x00)
 }
 
+// zTap sits between the decompressor and the message reader: it records the size of every read
+// request and whether compress/flate (phase 0) or the drain that follows the end of the deflate
+// stream (phase 1: no flate frame on the call stack) made it.
+type zTap struct {
+	r       io.Reader
+	reqs    []int
+	drain   []int
+	lastErr error
+}
+
+func (t *zTap) Read(p []byte) (int, error) {
+	inFlate := false
+	pcs := make([]uintptr, 24)
+	fr := runtime.CallersFrames(pcs[:runtime.Callers(2, pcs)])
+	for {
+		f, more := fr.Next()
+		if strings.HasPrefix(f.Function, "compress/flate.") {
+			inFlate = true
+			break
+		}
+		if !more {
+			break
+		}
+	}
+	if len(p) > 0 {
+		if inFlate {
+			t.reqs = append(t.reqs, len(p))
+		} else {
+			t.drain = append(t.drain, len(p))
+		}
+	}
+	n, err := t.r.Read(p)
+	if err != nil && err != io.EOF {
+		t.lastErr = err
+	}
+	return n, err
+}
+
 type zMsg struct {
-	t     int
-	plain []byte
-	end   int // offset in the stream just after its last frame
+	compressed bool
+	t          int
+	plain      []byte
+	end        int // offset in the stream just after its last frame
 }
 
 func runZCutScenario(seed int64) *scenario {
@@ -112,7 +152,7 @@ func runZCutScenario(seed int64) *scenario {
 				add(encFrame{fin: true, op: 9 + r.Intn(2), payload: []byte("c")})
 			}
 		}
-		msgs = append(msgs, zMsg{t: t, plain: plain, end: len(stream)})
+		msgs = append(msgs, zMsg{compressed: compressed, t: t, plain: plain, end: len(stream)})
 	}
 	cut := len(stream)
 	if r.Intn(4) > 0 {
@@ -149,11 +189,48 @@ func runZCutScenario(seed int64) *scenario {
 	}
 	t.together = len(t.chunks) > 0 && r.Intn(2) == 0
 	rbuf := []int{0, 125, 200, 512, 4096}[r.Intn(5)]
+	api := r.Intn(3)
+	// NextReader + io.ReadAll with a transport ending the model knows is also a correspondence
+	// scenario: the decompressor's read requests are recorded (zTap) and handed to the model as
+	// environment answers; the model (zReadToEnd) predicts whether the message is reported complete
+	// and, if not, with which error
+	scripted := api == 1 && termName != "io.ErrUnexpectedEOF"
+	ks := &keySource{keys: []byte{3, 1, 4, 1, 5, 9, 2, 6}}
+	restore := websocket.VerifSetMaskRand(ks)
+	defer restore()
 	c := websocket.VerifNewConn(t, srv, rbuf, 64, nil, nil, nil)
 	websocket.VerifSetCompression(c, nil)
-	api := r.Intn(3)
+	var tap *zTap
+	websocket.VerifTapDecompression(c, func(rd io.Reader) io.Reader { tap = &zTap{r: rd}; return tap })
 	desc := fmt.Sprintf("zcut srv=%d msgs=%d cut=%d/%d term=%s tog=%d rbuf=%d api=%d", b2i(srv), nmsg, cut, len(stream), termName, b2i(t.together), rbuf, api)
-	sc.emit("sched "+strings.ReplaceAll(desc, " ", "_"), "ok")
+	line := func(res string) string {
+		if evs := log.take(); len(evs) > 0 {
+			return res + " | " + joinEvs(evs)
+		}
+		return res
+	}
+	if scripted {
+		t.quiet = false
+		logDefaultHandlers(c, log)
+		sc.emit("reset keys="+hx(ks.keys)+" caps="+readAllCapsStr, "ok")
+		sc.emit(fmt.Sprintf("conn c0 srv=%d wbuf=64 pool=0 nego=1 rbuf=%d", b2i(srv), rbuf), "ok")
+		var parts []string
+		for _, ch := range t.chunks {
+			parts = append(parts, hx(ch))
+		}
+		cs := strings.Join(parts, ",")
+		if cs == "" {
+			cs = "-"
+		}
+		termTok := "eof"
+		if te, ok := t.term.(*tErr); ok {
+			termTok = fmt.Sprintf("err:%d", te.id)
+		}
+		sc.emit(fmt.Sprintf("feed c0 %s term=%s tog=%d", cs, termTok, b2i(t.together)), "ok")
+		sc.tag("zcut:scripted")
+	} else {
+		sc.emit("sched "+strings.ReplaceAll(desc, " ", "_"), "ok")
+	}
 	sc.tag(fmt.Sprintf("api:%d", api))
 	// messages that had fully arrived BEFORE the failing transport read: when a non-EOF error comes
 	// together with the last bytes, what that last read delivered does not count
@@ -233,9 +310,70 @@ func runZCutScenario(seed int64) *scenario {
 			mt, p, err = c.ReadMessage()
 		} else {
 			var rd io.Reader
+			tap = nil
 			mt, rd, err = c.NextReader()
+			if scripted {
+				if err != nil {
+					sc.emit("nr c0", line("err "+errName(err)))
+				} else {
+					sc.emit("nr c0", line(fmt.Sprintf("ok %d v%d z=%d", mt, i, b2i(tap != nil))))
+				}
+			}
 			if err == nil {
-				p, err = io.ReadAll(rd)
+				if scripted && tap == nil {
+					// an uncompressed message: fixed request size, as the model's readAll
+					buf := make([]byte, 512)
+					for {
+						var n int
+						n, err = rd.Read(buf)
+						p = append(p, buf[:n]...)
+						if err != nil {
+							break
+						}
+					}
+					en := "ok"
+					if err == io.EOF {
+						err = nil
+					} else {
+						en = errName(err)
+					}
+					sc.emit(fmt.Sprintf("ra c0 v%d 512", i), line(hx(p)+" "+en))
+				} else {
+					p, err = io.ReadAll(rd)
+					if scripted {
+						// environment answers: what compress/flate asked for, whether it accepted the
+						// stream, the request size of the drain
+						okTok := 1
+						if err != nil && tap.lastErr == nil {
+							okTok = 0 // compress/flate itself refused the data
+						}
+						dk := 8192
+						if len(tap.drain) > 0 {
+							dk = tap.drain[0]
+						}
+						var rq []string
+						for _, k := range tap.reqs {
+							rq = append(rq, fmt.Sprint(k))
+						}
+						rqs := strings.Join(rq, ",")
+						if rqs == "" {
+							rqs = "-"
+						}
+						res := "complete"
+						if err != nil {
+							res = "err " + errName(err)
+						}
+						sc.emit(fmt.Sprintf("zr c0 v%d reqs=%s ok=%d drain=%d", i, rqs, okTok, dk), line(res))
+						if len(tap.drain) > 0 {
+							sc.tag("zcut:drained")
+						}
+						for _, k := range tap.drain {
+							if k != dk {
+								sc.tag("zcut:mixed-drain-sizes")
+							}
+						}
+					}
+				}
 			}
 		}
 		if err != nil {
@@ -249,6 +387,8 @@ func runZCutScenario(seed int64) *scenario {
 			_, _, e2 := c.NextReader()
 			if e2 == nil {
 				fail("NextReader succeeded after the connection had failed with %v", err)
+			} else if scripted {
+				sc.emit("nr c0", line("err "+errName(e2)))
 			}
 			break
 		}
@@ -266,6 +406,9 @@ func runZCutScenario(seed int64) *scenario {
 	}
 	if delivered < whole {
 		fail("only %d of the %d messages that had fully arrived were delivered", delivered, whole)
+	}
+	if scripted {
+		sc.emit("wire c0", "ok "+hx(t.wire))
 	}
 	return sc
 }
